@@ -17,6 +17,7 @@ def obligations(tier):
         for mm in mms:
             for e, fn, b in (('h_once', ['mtCallOnce', 'mtAtomicCmpSwap'], 'initialiser runs exactly once, effects visible to every returning caller'),
                              ('h_atomic', ['mtAtomicIncr', 'mtAtomicDecr'], 'no lost update'),
+                             ('h_atomic_ret', ['mtAtomicIncr'], 'increment returns the value it produced'),
                              ('h_cas', ['mtAtomicCmpSwap'], 'exactly one winner')):
                 obs.append(Ob(name='c18_%s_t%d_%s' % (e[2:], n, mm), harness='harness/C18/once.c', entry=e, defs=['NTHR=%d' % n], srcs=MT,
                               unwind=3, no_uwa=True, checks=[], cbmc_extra=['--mm', mm], timeout=900, replay='none',
